@@ -27,6 +27,9 @@ def nextOutgoing (flag : Bool) (id : Nat) : Bool × Nat :=
 def outgoingDefault : Bool × Nat :=
   (true, 1)
 
+def sdForeign (h : Header) : Bool :=
+  ((!decide (h.sid = SD_SERVICE)) || (!decide (h.mid = SD_METHOD)) || (!decide (h.iv = SD_INTERFACE_VERSION)) || (!decide (h.rc = RetCode.ok)) || (!decide (h.mt = MsgType.notification)))
+
 def svcPrecheck (c : SvcCfg) (m : Header) (multicast known : Bool) : Option (Option RetCode) :=
   (if multicast = true then none else (if (!decide (m.sid = c.serviceId)) = true then some (some RetCode.unknownService) else (if (!decide (m.iv = c.versionMajor)) = true then some (some RetCode.wrongInterfaceVersion) else (if (!known) = true then some (some RetCode.unknownMethod) else (if (!(decide (m.mt = MsgType.request) || decide (m.mt = MsgType.requestNoReturn))) = true then some (some RetCode.wrongMessageType) else (if (!decide (m.rc = RetCode.ok)) = true then some (some RetCode.wrongMessageType) else some none))))))
 
